@@ -230,8 +230,10 @@ func (s *Syncer[H]) setLocalHead(ctx context.Context, netHead H) {
 func (s *Syncer[H]) incomingNetworkHead(ctx context.Context, head H) error {
 	// ensure there is no racing between network head candidates
 	// additionally ensures there is only one bifurcation attempt at a time
+	defer verifPoint(ctx, "incomingNetworkHead.released") // (deferred first: runs after the unlock)
 	s.incomingMu.Lock()
 	defer s.incomingMu.Unlock()
+	verifPoint(ctx, "incomingNetworkHead.locked")
 
 	if err := s.verify(ctx, head); err != nil {
 		return err
